@@ -82,6 +82,14 @@ def _job_inner(args):
                     k, p = oblig.conformance(ob, grid, sizes, seed=opts.get('seed', 0) * 101 + s)
                 except oblig.OutOfReach as e:
                     k, p = 0, []
+                except oblig.NativeFailure as e:
+                    # real code raises where the symbolic trace went through: report as a failing input of the clause
+                    k, p = 0, []
+                    if not (r.get('bounded') or {}).get('found'):
+                        r['bounded'] = dict(found=True, seed=e.seed, sizes=e.sizes, failing=[('exception', str(e))], tried=1)
+                    if r['status'] == 'proved':
+                        r['status'] = 'error'
+                        r['error'] = 'the real code raises on valid input (%s) although every clause was discharged symbolically' % e
                 n += k
                 probs += p
             r['conformance'] = dict(compared=n, problems=probs[:5])
